@@ -11,7 +11,7 @@ from .engine import (V, Py, NONE_V, mk_bool, mk_int, mk_str, Obligation, SymExc,
                      BreakSig, ContinueSig, PathEnd, RaiseSig, Unsupported, State)
 from .verifier import Verifier, Frame, _parse_expr, NOOP_FUNCS
 
-SPEC_ONLY = {"allocated", "abs_select", "lo", "hi", "store", "const_arr", "elems", "lemma", "old", "at_loop", "implies", "iff", "ite", "forall", "exists", "fresh", "typeis", "instance",
+SPEC_ONLY = {"snap_key", "allocated", "abs_select", "lo", "hi", "store", "const_arr", "elems", "lemma", "old", "at_loop", "implies", "iff", "ite", "forall", "exists", "fresh", "typeis", "instance",
              "unchanged", "unchanged_since_loop", "seq_len", "int_str", "join", "in_re", "card", "is_none",
              "some", "select"}
 
@@ -367,8 +367,115 @@ class Exec(Verifier):
         raise Unsupported("assignment target %s" % type(t).__name__)
 
     # ---- control flow
+    def _effect_free(self, stmts):
+        """Only calls to cosmetic no-op functions (print_*), possibly under nested ifs."""
+        for st_ in stmts:
+            if isinstance(st_, ast.Pass):
+                continue
+            if isinstance(st_, ast.Expr) and isinstance(st_.value, ast.Call):
+                f = st_.value.func
+                nme = f.id if isinstance(f, ast.Name) else (f.attr if isinstance(f, ast.Attribute) else None)
+                if nme in NOOP_FUNCS:
+                    continue
+                return False
+            if isinstance(st_, ast.If) and self._effect_free(st_.body) and self._effect_free(st_.orelse):
+                continue
+            return False
+        return True
+
+    def _exec_guarded(self, guard, stmts):
+        """Execute effect-free statements under `guard` without forking (their only purpose here is to
+        generate the safety obligations of their argument expressions)."""
+        mark = len(self.st.pc)
+        self.st.pc.append(guard)
+        try:
+            for st_ in stmts:
+                if isinstance(st_, ast.If):
+                    c = self.truth(self.ev(st_.test))
+                    self._exec_guarded(c, st_.body)
+                    self._exec_guarded(z3.Not(c), st_.orelse)
+                elif isinstance(st_, ast.Expr):
+                    self.cur_stmt = st_
+                    self.ev(st_.value)
+        finally:
+            extra = self.st.pc[mark + 1:]
+            del self.st.pc[mark:]
+            for e in extra:
+                self.st.pc.append(z3.Implies(guard, e))
+
+    def _simple_assignments(self, stmts):
+        """Only assignments / augmented assignments whose right-hand sides contain no calls (if-conversion)."""
+        for st_ in stmts:
+            if isinstance(st_, ast.Pass):
+                continue
+            if isinstance(st_, (ast.Assign, ast.AugAssign)) and not _contains_call(st_.value):
+                tg = st_.targets if isinstance(st_, ast.Assign) else [st_.target]
+                if all(isinstance(t, (ast.Name, ast.Attribute)) and not _contains_call(t) for t in tg):
+                    continue
+            return False
+        return bool(stmts) or True
+
+    def _merge_if(self, c, s):
+        """Execute both branches on the same state and merge with ite (no fork). Returns False if not mergeable."""
+        st = self.st
+        loc0, heap0, mark = dict(st.loc), dict(st.heap), len(st.pc)
+        unb0 = set(self.frame.unbound_locals)
+        results = []
+        for guard, stmts in ((c, s.body), (z3.Not(c), s.orelse)):
+            st.loc, st.heap = dict(loc0), dict(heap0)
+            self.frame.unbound_locals = set(unb0)
+            st.pc.append(guard)
+            for st_ in stmts:
+                self.cur_stmt = st_
+                getattr(self, "st_" + type(st_).__name__)(st_)
+            extra = st.pc[mark + 1:]
+            del st.pc[mark:]
+            results.append((st.loc, st.heap, extra, set(self.frame.unbound_locals)))
+        (l1, h1, e1, u1), (l2, h2, e2, u2) = results
+        if set(l1) != set(l2) or u1 != u2:
+            return None
+        loc, heap = {}, {}
+        for k in l1:
+            a, b = l1[k], l2[k]
+            if a is b:
+                loc[k] = a
+            elif isinstance(a, V) and isinstance(b, V) and a.ty == b.ty:
+                loc[k] = a if a.t.get_id() == b.t.get_id() else V(a.ty, z3.If(c, a.t, b.t))
+            else:
+                return None
+        for k in set(h1) | set(h2):
+            a, b = h1.get(k, self._init_heap.get(k)), h2.get(k, self._init_heap.get(k))
+            if a is None or b is None:
+                return None
+            heap[k] = a if a.get_id() == b.get_id() else z3.If(c, a, b)
+        st.loc, st.heap = loc, heap
+        self.frame.unbound_locals = u1
+        for e in e1:
+            st.pc.append(z3.Implies(c, e))
+        for e in e2:
+            st.pc.append(z3.Implies(z3.Not(c), e))
+        return True
+
     def st_If(self, s):
         c = self.truth(self.ev(s.test))
+        con = self.frame.contract
+        cs = z3.simplify(c)
+        if self._simple_assignments(s.body) and self._simple_assignments(s.orelse) and not (con is not None and con.abortable) \
+                and not z3.is_true(cs) and not z3.is_false(cs) and not self.in_ghost:
+            saved = (dict(self.st.loc), dict(self.st.heap), list(self.st.pc), set(self.frame.unbound_locals), len(self.obligations))
+            try:
+                if self._merge_if(c, s):
+                    return
+            except (Unsupported, PathEnd):
+                pass
+            self.st.loc, self.st.heap, self.st.pc = saved[0], saved[1], saved[2]
+            self.frame.unbound_locals = saved[3]
+            del self.obligations[saved[4]:]
+        if self._effect_free(s.body) and self._effect_free(s.orelse) and not (con is not None and con.abortable) \
+                and not z3.is_true(z3.simplify(c)) and not z3.is_false(z3.simplify(c)):
+            self._exec_guarded(c, s.body)
+            self._exec_guarded(z3.Not(c), s.orelse)
+            return
         if self.branch(c, "if " + ast.unparse(s.test)[:40]):
             self.exec_block(s.body)
         else:
@@ -543,7 +650,7 @@ class Exec(Verifier):
 
     def dict_snapshot(self, d, which):
         """Iteration order of a dict: a duplicate-free enumeration ks[0..n) of its key set."""
-        KT, VT = d.ty.args
+        KT, VT = d.ty.args[:2]
         n = self.card(d)
         self.assume(n >= 0)
         ks = self.fresh("keys", z3.ArraySort(z3.IntSort(), sort_of(KT)))
@@ -553,7 +660,7 @@ class Exec(Verifier):
         idx = z3.Function("idx_%d" % self.counter, sort_of(KT), z3.IntSort())
         self.assume(z3.ForAll([i], z3.Implies(AND(i >= 0, i < n), AND(z3.Select(dom, z3.Select(ks, i)), idx(z3.Select(ks, i)) == i))))
         self.assume(z3.ForAll([k], z3.Implies(z3.Select(dom, k), AND(idx(k) >= 0, idx(k) < n, z3.Select(ks, idx(k)) == k))))
-        self._last_dict_snapshot = (ks, n, idx)
+        self._last_dict_snapshot = (ks, n, idx, KT)
 
         def elem(ii):
             key = V(KT, z3.Select(ks, ii))
@@ -840,11 +947,12 @@ class Exec(Verifier):
                 seen.add(k)
                 obls.append(o)
         pseen, probes = set(), []
-        for nme, pc in self.probes:
+        for pr in self.probes:
+            nme, pc = pr[0], pr[1]
             k = (nme, tuple(p.get_id() for p in pc))
             if k not in pseen:
                 pseen.add(k)
-                probes.append((nme, pc))
+                probes.append(pr)
         return {"obligations": obls, "probes": probes, "paths": paths, "path_ends": ends, "trivial": self.trivial,
                 "ghost_assumes": sorted(set(self.ghost_assumes))}
 
@@ -870,7 +978,8 @@ class Exec(Verifier):
                     env[names[0]] = Py("class", (con.file, con.cls))
                 else:
                     st_ = con.self_type or con.cls
-                    sv = V(Ty("ref", st_), self.fresh("self", Ref))
+                    sty = ty(st_)
+                    sv = V(sty, self.fresh("self", sort_of(sty)))
                     self.assume_type(sv)
                     env[names[0]] = sv
                 i0 = 1
